@@ -68,12 +68,21 @@ class HarnessError(Exception):
 _MOD = None
 
 
+_INIT_ERROR = None
+
+
 def _init_worker(modname):
-    global _MOD
-    import importlib
-    _MOD = importlib.import_module(modname)
-    if hasattr(_MOD, 'setup_worker'):
-        _MOD.setup_worker()
+    # an exception here would make multiprocessing.Pool respawn workers for
+    # ever (the run would hang): remember it, every chunk then reports it
+    global _MOD, _INIT_ERROR
+    try:
+        import importlib
+        _MOD = importlib.import_module(modname)
+        if hasattr(_MOD, 'setup_worker'):
+            _MOD.setup_worker()
+    except BaseException:
+        _INIT_ERROR = traceback.format_exc()
+        return
     import gc
     gc.collect()
     gc.freeze()
@@ -114,6 +123,9 @@ def _work(args):
         'outcomes': collections.Counter(), 'counters': collections.Counter(),
         'vclasses': {}, 'extra': [], 'harness': [], 'samples': [],
     }
+    if _INIT_ERROR:
+        out['harness'].append('the worker could not be set up (the implementation under /repo/src cannot be imported?):\n' + _INIT_ERROR)
+        return out
     for case in chunk:
         try:
             res = run_one(_MOD, case) or {}
